@@ -103,8 +103,10 @@ class Module(object):
     self.tree = ast.parse(src, path)
     if repo.normalize:
       from . import norm
-      ext = (lambda nm, me=name: repo.mentions.get(nm, 0) - (1 if nm in repo.tokens.get(me, ()) else 0) > 0)
-      extdef = (lambda nm, me=name: repo.defcount.get(nm, 0) - (1 if nm in repo.defs_in.get(me, ()) else 0) > 0)
+      # another file mentions the name without defining a function of that name itself (a file that has its own `def nm` is
+      # taken to mean its own)
+      ext = (lambda nm, me=name: any(nm in toks_ and nm not in repo.defs_in.get(rel_, ()) for rel_, toks_ in repo.tokens.items() if rel_ != me))
+      extdef = (lambda nm, cls_=None, me=name: repo.subclass_defines(cls_, nm, me) if cls_ else (repo.defcount.get(nm, 0) - (1 if nm in repo.defs_in.get(me, ()) else 0) > 0))
       self.tree = norm.normalize_module(self.tree, name, repo.norm_stats, external=ext, external_def=extdef)
     self.short = name[4:] if name.startswith('pox.') else name
     self.is_pkg = os.path.basename(path) == '__init__.py'
@@ -258,6 +260,15 @@ class Repo(object):
       for t in toks: self.mentions[t] = self.mentions.get(t, 0) + 1
       for t in dfs: self.defcount[t] = self.defcount.get(t, 0) + 1
     self.tokens = dict((rel, toks) for rel, p, src, toks, dfs in files)
+    # class hierarchy by simple names over all files (for the normaliser: is a method overridden by some subclass?)
+    self.class_index = []      # (file, class name, base names, method names)
+    for rel, p, src, toks, dfs in files:
+      try: t_ = ast.parse(src)
+      except SyntaxError: continue
+      for c_ in ast.walk(t_):
+        if isinstance(c_, ast.ClassDef):
+          bases = set((b.id if isinstance(b, ast.Name) else (b.attr if isinstance(b, ast.Attribute) else '?')) for b in c_.bases)
+          self.class_index.append((rel, c_.name, bases, set(x.name for x in c_.body if isinstance(x, (ast.FunctionDef, ast.AsyncFunctionDef)))))
     self.defs_in = dict((rel, dfs) for rel, p, src, toks, dfs in files)
     if True:
       if True:
@@ -266,6 +277,17 @@ class Repo(object):
             self.modules[rel] = Module(self, rel, p, src)
           except SyntaxError as ex:
             self.parse_errors.append((p, str(ex)))
+  def subclass_defines (self, clsname, meth, own_file=None):
+    """does some (transitive) subclass of a class called clsname - in another file - define a method `meth`?  Unknown bases
+    ('?') count as possible subclasses"""
+    seen = set([clsname]); work = [clsname]
+    while work:
+      c = work.pop()
+      for rel, name, bases, meths in self.class_index:
+        if c in bases or '?' in bases and False:
+          if rel != own_file and meth in meths: return True
+          if name not in seen: seen.add(name); work.append(name)
+    return False
   # -- lookups
   def mod (self, name):
     if not name.startswith('pox.') and ('pox.' + name) in self.modules:
